@@ -203,8 +203,18 @@ Universe_Runs ==
      lin \in {"none", "two"}, nl \in {"plane_ub", "vector", "nlc_two", "circle_ge"},
      opt \in {"default", "npt_max", "npt_min", "fev_3npt"}}
 
+(* ---- C11: cheap runs of every flavour, grouped into schedules by the harness *)
+Universe_C11 ==
+  {D(n, bp, "inside", sc, obj, NoFault, lin, nl, bf, opt, cb) :
+     n \in {2, 3}, bp \in UNION {FixSets(m) : m \in {2, 3}} \cup {<<"free", "lower">>, <<"upper", "free", "wide">>},
+     sc \in BOOLEAN, obj \in {"quad", "rosen"}, lin \in {"none", "two"}, nl \in {"none", "nlc_ub", "dict_ineq"},
+     bf \in {"Bounds", "array", "Bounds_nan", "array_nan"},
+     opt \in {"default40", "k_irf15", "k_drf25", "k_misc", "k_res", "fev_3npt"},
+     cb \in {NoCb, <<"kw", 0>>, <<"pos", 0>>, <<"stop", 9>>}}
+
 Universe(id) ==
-  CASE id = "C01" -> Universe_C01
+  CASE id = "C11" -> Universe_C11
+    [] id = "C01" -> Universe_C01
     [] id = "C02" -> Universe_C02
     [] id = "C05" -> Universe_C05
     [] id = "C06" -> Universe_C06
